@@ -1,3 +1,3 @@
 From Coq Require Import Extraction ExtrOcamlBasic.
 From LT Require Import SamplerModel ShuffleModel.
-Extraction "model.ml" random_mod grandomm grandomb create_stack_secret nomodbias_max fisher_yates.
+Extraction "model.ml" random_mod grandomm grandomb create_stack_secret nomodbias_max fisher_yates cache_run.
